@@ -102,7 +102,16 @@ def gen_tree(rng, depth, syms, big):
     if r < 0.12:
         return ('abs', gen_tree(rng, depth - 1, syms, big))
     if r < 0.22 and depth <= 3:
-        return ('bin', rng.choice(CMPOPS), gen_tree(rng, depth - 1, syms, big), gen_tree(rng, depth - 1, syms, big))
+        # each side over ONE commodity (or plain numbers only): a comparison with a multi-entry balance walks the
+        # hash table and its outcome (value or error) depends on the iteration order in more ways than the model's
+        # two insertion orders cover
+        ls = [rng.choice(syms + [None])]
+        rs = [rng.choice(syms + [None])]
+        l = gen_tree(rng, depth - 1, [x for x in ls if x] or syms[:1], big)
+        r_ = gen_tree(rng, depth - 1, [x for x in rs if x] or syms[:1], big)
+        if len(comms(l)) == 1 and len(comms(r_)) == 1:
+            return ('bin', rng.choice(CMPOPS), l, r_)
+        return ('bin', '+', l, r_)
     op = rng.choice(['+', '+', '-', '-', '*', '/'])
     return ('bin', op, gen_tree(rng, depth - 1, syms, big), gen_tree(rng, depth - 1, syms, big))
 
